@@ -63,7 +63,8 @@ inductive Ev where
   | done (k : Nat)
   | cb (owner cb on : Nat)
   | joinRet (k by_ : Nat)     -- pthread_join on k returned to by_
-  | joinSkip (k by_ : Nat)    -- aws_thread_join on a handle that is not joinable: returns at once
+  | joinSkip (k by_ : Nat) (h : HState)  -- aws_thread_join on a handle that is not JOINABLE (state h): returns at once
+  | joinFail (k by_ err : Nat) -- pthread_join refused (EDEADLK 35: own thread; EINVAL 22: detached): error returned
   | count (by_ n : Nat)
   | joinAllBegin (by_ : Nat)
   | joinAllRet (by_ : Nat) (ok : Bool) (snap : List Nat)
@@ -154,6 +155,7 @@ structure State where
   creates : Nat := 0
   waitCtr : Nat := 0
   hstate : Nat → HState := fun _ => .notCreated
+  detachedS : Nat → Bool := fun _ => false   -- pthread_detach has been called on the slot's thread
   wLive : Nat := 0      -- heap blocks: `struct thread_wrapper`s and the name strings attached to them
   hoCtr : Nat := 0      -- ghost: number of hand-overs so far
   misuse : Nat := 0     -- pthread_join calls on an id that is not the thread's (ESRCH)
@@ -267,8 +269,10 @@ def exec (P : Prog) (s : State) (t : Nat) (i : Instr) (rest : List Instr) : Opti
   | .incCount => some (cont { s with count := s.count + 1 } t me rest)
   -- `--s_unjoined_thread_count` (uint32_t): the invariant shows count ≥ 1 here, so no wrap-around is modelled
   | .decCount => some (cont { s with count := s.count - 1 } t me rest)
-  | .allocW _ nm =>
-    some (cont { s with wLive := s.wLive + 1 + nm.toNat } t me rest)
+  | .allocW k nm =>
+    -- top of aws_thread_launch: a managed launch marks the handle MANAGED before anything can fail
+    some (cont { s with wLive := s.wLive + 1 + nm.toNat,
+                        hstate := if P.managed k then upd s.hstate k .managed else s.hstate } t me rest)
   | .freeW _ nm => some (cont (freeWrapper s (1 + nm.toNat)) t me rest)
   | .create k pin nf nm =>
     -- pthread_create and the local tail of aws_thread_launch that depends on its result: on failure the count
@@ -308,11 +312,19 @@ def exec (P : Prog) (s : State) (t : Nat) (i : Instr) (rest : List Instr) : Opti
       -- an id that is not k's thread (e.g. still 0): pthread_join fails with ESRCH, nothing is joined
       some (pushW (cont { s with misuse := s.misuse + 1 } t me rest) (wev s t "join" "t-1" 3))
   | .joinU k =>
-    if (s.th k).status = .exited ∧ t ≠ k then
+    -- pthread_join from aws_thread_join.  A refused join (own thread: EDEADLK; detached thread: EINVAL) returns the
+    -- error and leaves the handle's detach_state and everything else as it was
+    if t = k then
+      some (pushW (pushLog (cont s t me rest) (.joinFail k t 35)) (wev s t "join" (tname s k) 35))
+    else if s.detachedS k = true then
+      some (pushW (pushLog (cont s t me rest) (.joinFail k t 22)) (wev s t "join" (tname s k) 22))
+    else if (s.th k).status = .exited then
       let s1 := { s with th := upd s.th k { s.th k with status := .joined }, hstate := upd s.hstate k .joinCompleted }
       some (pushW (pushLog (cont s1 t (s1.th t) rest) (.joinRet k t)) (wev s t "join" (tname s k) 0))
     else none
-  | .detach k => some (pushW (cont s t me rest) (wev s t "detach" (tname s k) 0))
+  | .detach k =>
+    if s.detachedS k = true then some (pushW (cont s t me rest) (wev s t "detach" (tname s k) 22))
+    else some (pushW (cont { s with detachedS := upd s.detachedS k true } t me rest) (wev s t "detach" (tname s k) 0))
   | .cwait timed =>
     let me' := { me with waiting := true, woken := false, waitSeq := s.waitCtr + 1,
                          deadline := if timed then me.deadline else none }
@@ -341,7 +353,7 @@ def exec (P : Prog) (s : State) (t : Nat) (i : Instr) (rest : List Instr) : Opti
   -- aws_common_library_init when s_common_library_initialized is already set: nothing happens; in particular the
   -- managed-thread count and the pending-join list are left alone
   | .libInit => some (cont s t me rest)
-  | .logJoin k => some (pushLog (cont s t me rest) (.joinSkip k t))
+  | .logJoin k => some (pushLog (cont s t me rest) (.joinSkip k t (s.hstate k)))
   | .readCount => some (cont s t { me with rVal := s.count } rest)
   | .logCount => some (pushLog (cont s t me rest) (.count t me.rVal))
   | .setTo ns => some (cont { s with timeoutNs := ns } t me rest)
